@@ -374,13 +374,12 @@ func (e *cueEnc) cv(v cue.Value, depth int) string {
 		e.used["reference"]++
 		root, p := v.ReferencePath()
 		sels := p.Selectors()
-		// the guard at the top of declareReference (fix 0643960): only regular fields and definitions can be named
+		// the guard at the top of declareReference (fixes 0643960, 81c841c): the LAST selector must be nameable
+		// (a pattern constraint, a regular field or a definition)
 		bad := false
-		for _, sel := range sels {
-			if sel.Type().ConstraintType() == cue.PatternConstraint {
-				continue
-			}
-			if lt := sel.LabelType(); lt != cue.StringLabel && lt != cue.DefinitionLabel {
+		if len(sels) != 0 {
+			last := sels[len(sels)-1]
+			if lt := last.LabelType(); last.Type().ConstraintType() != cue.PatternConstraint && lt != cue.StringLabel && lt != cue.DefinitionLabel {
 				bad = true
 			}
 		}
@@ -794,7 +793,7 @@ plain: {x: string}
 	// witness of C01_cue_parser_sound_counterexample_required_constant: CUE fills in the absent constant, the IR says required
 	{"cuepinconst", `#R: {kind: "fixed"}`, "R", []string{`{}`, `{"kind":"fixed"}`, `{"kind":"other"}`}},
 	{"cuepinerr0", `#R: {nb?: number & <7.25}`, "R", nil},
-	// reference to a hidden field: reported by the guard at the top of declareReference (fix 0643960; it panicked before)
+	// reference whose last selector is a hidden field: reported by the guard at the top of declareReference (fixes 0643960, 81c841c; it panicked before)
 	{"cuepinerrhidden", "_h: string\n#R: {a: _h}", "R", nil},
 	{"cuepinerr1", `#R: {l: [string, string]}`, "R", nil},
 	{"cuepinerr2", `#R: {e: 1 | 2}`, "R", nil},
